@@ -51,7 +51,9 @@ def from_max_simplices(SC):
     max_simplices = SC.edges.maximal()
     H = Hypergraph()
     H.add_nodes_from(SC.nodes)  # to keep node order and isolated nodes
-    H.add_edges_from([list(SC.edges.members(e)) for e in max_simplices])
+    # (members, attr) pairs: a bare list of members starting with a string label
+    # would be mistaken for another format
+    H.add_edges_from([(list(SC.edges.members(e)), {}) for e in max_simplices])
     return H
 
 
